@@ -279,6 +279,36 @@ def dim_bounds(ctx):
                         ctx.violation(f"dim-fill-loop-bound:{'hex' if hexlit else 'dec'}", f"DIM A({val}) with initialize_vars: fill loop does not end at {val}; template {shape!r}", {"bound": val})
 
 
+def capacity(ctx):
+    from vf.props.c10 import collect_decls, collect_uses
+    from vf.tv import b09front
+    from vf.tv.lex import SyntaxErr
+
+    size = 80
+    progs = string_function_programs() + [("strfn-print:" + e, "10 PRINT " + e) for e in ("STRING$ ( 40 , \"*\" )", "STR$ ( N ) + HEX$ ( N )", "LEFT$ ( A$ , 2 ) + STR$ ( N )")]
+    for label, src in progs:
+        o = classify(src + "\n", default_str_storage=size)
+        ctx.stats["programs"] += 1
+        if o[0] != "ok":
+            continue
+        try:
+            stmts = b09front.parse_program(o[1])
+        except SyntaxErr:
+            continue  # C07's subject
+        decls, problems, uses = {}, [], []
+        collect_decls(stmts, decls, [0], problems)
+        collect_uses(stmts, uses, [0])
+        for name in sorted({u[1].upper() for u in uses if u[1].endswith("$")}):
+            ctx.stats["obligations"] += 1
+            d = decls.get(name)
+            cap = 32 if d is None or d[2] is None else d[2]
+            if cap == size:
+                ctx.stats["identity"] += 1
+            else:
+                cls = "temp" if name.startswith("TMP_") else "variable"
+                ctx.violation(f"capacity:{cls}:{label.split(':')[0]}", f"{src!r} with default_str_storage={size}: {name} holds {cap} characters, so a longer function result is cut", {"source": src, "mode": "sym", "emitted": o[1]})
+
+
 def run(tier):
     ctx = Ctx("C03", tier, "translation_validation", technique="translation validation with SMT (both symbolic machines over real convert() output; z3 decides event/store equality; undefined BASIC09 storage for initialisation) + real DIM emission on a symbolic bound")
     smt.reset_stats()
@@ -320,6 +350,22 @@ def run(tier):
                 ctx.violation(sig, f"{r['job'][1]!r} [{r['job'][2]}] -> {what}", {"source": r["job"][1], "mode": r["job"][2], "emitted": r.get("emitted")})
     for r in results[:: max(1, len(results) // 8)]:
         ctx.sample({"source": r["job"][1], "mode": r["job"][2], "status": r["status"], "emitted": (r.get("emitted") or "")[:150]})
+    # Results of string functions must not be cut: with a requested default string size every string the program
+    # touches - including the temporaries that carry hoisted function results - has that capacity.
+    capacity(ctx)
+    # The two machines treat INSTR, STRING$ and the empty-DATA filter as contracts (the same function on both sides).
+    # Discharge them here by interpreting the library text (the C20 obligations), so that a change to the library that
+    # breaks a string function is a C03 finding too.
+    from vf.core import ContractCtx
+    from vf.props import c20
+
+    lib = tvlib.load_library()
+    cctx = ContractCtx(ctx)
+    K = 3
+    c20.check_instr(cctx, lib, K)
+    c20.check_string(cctx, lib, K, 4)
+    c20.check_read_filter(cctx, lib)
+    ctx.bounds["contracts_discharged"] = {"procedures": ["ecb_instr", "ecb_string", "ecb_read_filter"], "string_length_max": K, "string_count_max": 4}
     ctx.extra["program_status"] = statuses
     dim_bounds(ctx)
     ctx.add_solver_stats(smt.STATS.export())
